@@ -800,31 +800,110 @@ Qed.
 Lemma set_seg_name' w il es : seg_name (set_seg w il es) = w.
 Proof. destruct (set_seg_shape w il es) as (a & hb & b & E). now rewrite E. Qed.
 
+(* repeated list options append: the occurrences of an appending option, each with at least one
+   argument, yield the concatenation of their arguments in line order *)
+Lemma multi_occ_lines k L (ls : list (list string)) :
+  occurrences k L = ls -> forallb (fun l => negb (is_nil l)) ls = true -> multi k L = Some (List.concat ls).
+Proof.
+  unfold multi. intros -> H.
+  replace (existsb is_nil ls) with false; [reflexivity|].
+  symmetry. induction ls as [|l ls IH]; [reflexivity|].
+  cbn [forallb existsb] in *. apply andb_true_iff in H. destruct H as [H1 H2].
+  apply negb_true_iff in H1. now rewrite H1, IH.
+Qed.
+
+Lemma cert_sel_eq cs :
+  forallb (fun l => negb (is_nil l)) (cs_all_tags cs) && forallb (fun l => negb (is_nil l)) (cs_any_tag cs) &&
+  forallb (fun l => negb (is_nil l)) (cs_serials cs) && forallb (fun l => negb (is_nil l)) (cs_orgs cs) = true ->
+  parse_cert_sel (blockL "cert_selection" [] (cert_sel_fields cs)) = Some (cert_sel_json cs).
+Proof.
+  destruct cs as [al an sn so]. cbn [cs_all_tags cs_any_tag cs_serials cs_orgs]. intro H.
+  repeat (apply andb_true_iff in H; destruct H as [H ?]).
+  unfold parse_cert_sel. rewrite block_lines_blockL. cbn [obind]. unfold cert_sel_fields.
+  cbn [cs_all_tags cs_any_tag cs_serials cs_orgs].
+  rewrite known_render by reflexivity.
+  rewrite (multi_occ_lines "all_tags" _ al) by (try occ; assumption).
+  rewrite (multi_occ_lines "any_tag" _ an) by (try occ; assumption).
+  rewrite (multi_occ_lines "serial_number" _ (map (map print_N) sn)).
+  2: occ.
+  2:{ clear - H1. induction sn as [|l sn IH]; [reflexivity|]. cbn [map forallb] in *.
+      apply andb_true_iff in H1. destruct H1 as [A B]. rewrite (IH B), andb_true_r. now destruct l. }
+  rewrite (multi_occ_lines "subject_organization" _ so) by (try occ; assumption).
+  cbn [obind]. rewrite <- concat_map.
+  rewrite (traverse_map _ print_N (fun n => n)); [|apply Forall_forall; intros; apply parse_print_N].
+  rewrite map_id. reflexivity.
+Qed.
+
+Lemma filter_lines_pred (p : string -> bool) L :
+  forallb (fun l => negb (p (fst l))) L = true ->
+  filter (fun s => p (seg_name s)) (map mkline L) = [] /\
+  filter (fun s => negb (p (seg_name s))) (map mkline L) = map mkline L.
+Proof.
+  induction L as [|[k a] L IH]; intro H; [split; reflexivity|].
+  cbn [forallb fst] in H. apply andb_true_iff in H. destruct H as [H1 H2]. destruct (IH H2) as [I1 I2].
+  apply negb_true_iff in H1.
+  assert (Hu : p (seg_name (mkline (k, a))) = false) by (unfold mkline; cbn [seg_name seg_words fst snd]; exact H1).
+  cbn [map filter]. rewrite Hu. cbn [negb]. rewrite I1, I2. split; reflexivity.
+Qed.
+
+Lemma blockL_name n fs : seg_name (blockL n [] fs) = n.
+Proof. unfold blockL, block. now destruct (map mkline (render fs)). Qed.
+
 Lemma conn_policy_eq c : conn_policy_ok c = true -> parse_conn_policy (conn_policy_seg c) = Some (conn_policy_json c).
 Proof.
-  destruct c as [alpn ci cu ds dr fs sl pr mt]. unfold conn_policy_ok. cbn [cp_protocols cp_match]. intro H.
-  apply andb_true_iff in H. destruct H as [Hp Hm].
-  unfold conn_policy_seg, parse_conn_policy. rewrite !filter_app.
-  set (fsd := conn_policy_fields _).
-  destruct (filter_lines_key "match" (render fsd)) as [F1 F2].
+  destruct c as [alpn ci cu ds dr fs sl pr mt csel]. unfold conn_policy_ok. cbn [cp_protocols cp_match cp_cert_sel]. intro H.
+  apply andb_true_iff in H. destruct H as [H Hm]. apply andb_true_iff in H. destruct H as [Hp Hcs].
+  unfold conn_policy_seg, parse_conn_policy.
+  set (c := ConnPolicy alpn ci cu ds dr fs sl pr mt csel).
+  set (fsd := conn_policy_fields c).
+  change is_cp_match with (fun s => (fun n => n =? "match") (seg_name s)).
+  change is_cp_cert_sel with (fun s => (fun n => n =? "cert_selection") (seg_name s)).
+  rewrite !filter_app.
+  destruct (filter_lines_pred (fun n => n =? "match") (render fsd)) as [F1 _].
   { apply (forallb_render (fun k => negb (k =? "match"))). reflexivity. }
-  rewrite F1, F2. cbn [List.app].
-  assert (Fm : filter (fun s => seg_name s =? "match") (cp_match_seg (ConnPolicy alpn ci cu ds dr fs sl pr mt)) =
-               cp_match_seg (ConnPolicy alpn ci cu ds dr fs sl pr mt) /\
-               filter (fun s => negb (seg_name s =? "match")) (cp_match_seg (ConnPolicy alpn ci cu ds dr fs sl pr mt)) = []).
-  { unfold cp_match_seg. cbn [cp_match]. destruct mt as [[il subs]|]; [|split; reflexivity].
-    cbn [filter]. rewrite set_seg_name'. split; reflexivity. }
-  destruct Fm as [Fm1 Fm2]. rewrite Fm1, Fm2, app_nil_r. rewrite opt_lines_mk. cbn [obind].
-  subst fsd. unfold conn_policy_fields.
+  destruct (filter_lines_pred (fun n => n =? "cert_selection") (render fsd)) as [F2 _].
+  { apply (forallb_render (fun k => negb (k =? "cert_selection"))). reflexivity. }
+  destruct (filter_lines_pred (fun n => (n =? "match") || (n =? "cert_selection")) (render fsd)) as [_ F3].
+  { apply (forallb_render (fun k => negb ((k =? "match") || (k =? "cert_selection")))). reflexivity. }
+  cbv beta in F1, F2, F3 |- *. rewrite F1, F2, F3. cbn [List.app].
+  (* the cert_selection and match segments *)
+  assert (Hc : cp_cert_sel_seg c = match csel with Some cs => [blockL "cert_selection" [] (cert_sel_fields cs)] | None => [] end)
+    by reflexivity.
+  assert (Hmm : cp_match_seg c = match mt with Some (il, subs) => [set_seg "match" il (map tlsm_seg subs)] | None => [] end)
+    by reflexivity.
+  rewrite Hc, Hmm. clear Hc Hmm.
+  replace (filter (fun s => seg_name s =? "match") match csel with Some cs => [blockL "cert_selection" [] (cert_sel_fields cs)] | None => [] end)
+    with (@nil seg) by (destruct csel; [cbn [filter]; rewrite blockL_name|]; reflexivity).
+  replace (filter (fun s => seg_name s =? "cert_selection") match mt with Some (il, subs) => [set_seg "match" il (map tlsm_seg subs)] | None => [] end)
+    with (@nil seg) by (destruct mt as [[il subs]|]; [cbn [filter]; rewrite set_seg_name'|]; reflexivity).
+  replace (filter (fun s => seg_name s =? "match") match mt with Some (il, subs) => [set_seg "match" il (map tlsm_seg subs)] | None => [] end)
+    with (match mt with Some (il, subs) => [set_seg "match" il (map tlsm_seg subs)] | None => [] end)
+    by (destruct mt as [[il subs]|]; [cbn [filter]; rewrite set_seg_name'|]; reflexivity).
+  replace (filter (fun s => seg_name s =? "cert_selection") match csel with Some cs => [blockL "cert_selection" [] (cert_sel_fields cs)] | None => [] end)
+    with (match csel with Some cs => [blockL "cert_selection" [] (cert_sel_fields cs)] | None => [] end)
+    by (destruct csel; [cbn [filter]; rewrite blockL_name|]; reflexivity).
+  replace (filter (fun s => negb ((seg_name s =? "match") || (seg_name s =? "cert_selection")))
+             match csel with Some cs => [blockL "cert_selection" [] (cert_sel_fields cs)] | None => [] end)
+    with (@nil seg) by (destruct csel; [cbn [filter]; rewrite blockL_name|]; reflexivity).
+  replace (filter (fun s => negb ((seg_name s =? "match") || (seg_name s =? "cert_selection")))
+             match mt with Some (il, subs) => [set_seg "match" il (map tlsm_seg subs)] | None => [] end)
+    with (@nil seg) by (destruct mt as [[il subs]|]; [cbn [filter]; rewrite set_seg_name'|]; reflexivity).
+  rewrite !app_nil_r. cbn [List.app]. rewrite opt_lines_mk. cbn [obind].
+  subst fsd c. unfold conn_policy_fields.
   cbn [cp_alpn cp_ciphers cp_curves cp_default_sni cp_drop cp_fallback_sni cp_secrets_log cp_protocols].
   rewrite known_render by reflexivity.
-  assert (Hmj : match cp_match_seg (ConnPolicy alpn ci cu ds dr fs sl pr mt) with
+  assert (Hmj : match (match mt with Some (il, subs) => [set_seg "match" il (map tlsm_seg subs)] | None => [] end) with
                 | [] => Some None
                 | [m] => option_map Some (parse_flat_set parse_tlsm m)
                 | _ => None end =
                 Some (match mt with Some (_, subs) => Some (sort_kv (map (fun t => (tlsm_name t, tlsm_json t)) subs)) | None => None end)).
-  { unfold cp_match_seg. cbn [cp_match]. destruct mt as [[il subs]|]; [|reflexivity]. now rewrite tls_set_eq. }
-  rewrite Hmj. cbn [obind].
+  { destruct mt as [[il subs]|]; [|reflexivity]. now rewrite tls_set_eq. }
+  assert (Hcj : match (match csel with Some cs => [blockL "cert_selection" [] (cert_sel_fields cs)] | None => [] end) with
+                | [] => Some None
+                | [x] => option_map Some (parse_cert_sel x)
+                | _ => None end = Some (option_map cert_sel_json csel)).
+  { destruct csel as [cs|]; [|reflexivity]. now rewrite cert_sel_eq. }
+  rewrite Hmj, Hcj. cbn [obind].
   rewrite (multi_occ_if "alpn" _ alpn) by occ.
   rewrite (multi_occ_if "ciphers" _ ci) by occ.
   rewrite (multi_occ_if "curves" _ cu) by occ.
@@ -834,7 +913,7 @@ Proof.
   rewrite (once1_occ_opt "insecure_secrets_log" _ sl) by occ.
   rewrite (once_occ_if "protocols" _ pr) by occ.
   cbn [obind]. unfold conn_policy_json.
-  cbn [cp_alpn cp_ciphers cp_curves cp_default_sni cp_drop cp_fallback_sni cp_secrets_log cp_protocols cp_match].
+  cbn [cp_alpn cp_ciphers cp_curves cp_default_sni cp_drop cp_fallback_sni cp_secrets_log cp_protocols cp_match cp_cert_sel].
   destruct pr as [|p1 [|p2 [|p3 pr]]]; [| | |discriminate Hp]; cbn [obind]; destruct mt as [[il subs]|]; reflexivity.
 Qed.
 
@@ -931,7 +1010,10 @@ Proof.
   - (* tls handler *)
     destruct (block_shape "tls" [] (map conn_policy_seg cps)) as (hb & body & E & W); [|now exists [], hb, body].
     clear. induction cps as [|c cps IH]; [reflexivity|]. cbn [map forallb]. rewrite IH, andb_true_r.
-    unfold conn_policy_seg. cbn [seg_wf]. rewrite forallb_app, mklines_wf. cbn [andb].
+    unfold conn_policy_seg. cbn [seg_wf]. rewrite !forallb_app, mklines_wf. cbn [andb].
+    apply andb_true_iff. split.
+    { unfold cp_cert_sel_seg. destruct (cp_cert_sel c) as [cs|]; [|reflexivity]. cbn [forallb]. rewrite andb_true_r.
+      destruct (blockL_shape "cert_selection" [] (cert_sel_fields cs)) as (? & ? & _ & W). exact W. }
     unfold cp_match_seg. destruct (cp_match c) as [[il subs]|]; [|reflexivity].
     cbn [forallb]. rewrite andb_true_r. apply set_seg_wf, tlsm_segs_wf.
   - destruct (block_shape "proxy" (px_args c) (map mkline (render (proxy_fields c)) ++ map upstream_seg (px_upstreams c)))
